@@ -359,9 +359,11 @@ def ref(n):
     return dict(k='ref', ref=n, t=REJECT)
 
 
-def random_operand(universe, rng, values, want_bool=False, allow_2d=True):
+def random_operand(universe, rng, values, want_bool=False, allow_2d=True, column=False):
     n, m = universe['ncols'], universe['nrows']
     names = list(universe['names'])
+    if column:          # dense (m, 1) operand: == / != compare every row with its own length-1 operand
+        return lit(rng.choice(['list', 'nd']), T(2, want_bool, [[rng.random() < 0.5 if want_bool else fr(rng.choice(values))] for _ in range(m)]))
     r = rng.random()
     if r < 0.3:
         cand = [x for x in names if (universe['names'][x] == 'lvec') == want_bool or rng.random() < 0.15]
@@ -508,6 +510,8 @@ def random_op(universe, rng, values, mutating=None, state=None):
             f = rng.choice(LOGIC + ['eq', 'ne'])
             return op, dict(x=x, f=f, o=random_operand(universe, rng, values, want_bool=True, allow_2d=False))
         f = rng.choice(ARITH + CMP)
+        if kinds[x] == 'arr' and rng.random() < 0.12:
+            return op, dict(x=x, f=rng.choice(['eq', 'ne', 'eq', 'ne', 'lt', 'add']), o=random_operand(universe, rng, values, column=True))
         return op, dict(x=x, f=f, o=random_operand(universe, rng, values, want_bool=rng.random() < 0.1))
     if op == 'rbin':
         return op, dict(x=rng.choice(nums), f=rng.choice(ARITH), o=lit('py', T(0, False, fr(rng.choice(values)))))
